@@ -165,20 +165,21 @@ def user_identifiers(source: str) -> dict[str, str]:
 	def visit(node: ast.AST, ctx: str) -> None:
 		for child in ast.iter_child_nodes(node):
 			if isinstance(child, (ast.FunctionDef, ast.AsyncFunctionDef)):
-				put(child.name, 'method' if ctx == 'class' else ('closure' if ctx == 'function' else 'function'))
+				put(child.name, 'method' if ctx in ('class', 'enum') else ('closure' if ctx == 'function' else 'function'))
 				for a in [*child.args.posonlyargs, *child.args.args, *child.args.kwonlyargs, child.args.vararg, child.args.kwarg]:
 					if a is not None and a.arg not in ('self', 'cls'):
 						put(a.arg, 'param')
 				visit(child, 'function')
 			elif isinstance(child, ast.ClassDef):
-				put(child.name, 'class')
-				visit(child, 'class')
+				put(child.name, 'nested-class' if ctx == 'class' else 'class')
+				is_enum = any(isinstance(b, ast.Name) and b.id == 'Enum' for b in child.bases)
+				visit(child, 'enum' if is_enum else 'class')
 			elif isinstance(child, ast.Lambda):
 				for a in child.args.args:
 					put(a.arg, 'param')
 				visit(child, ctx)
 			else:
-				kind = {'module': 'module', 'class': 'classvar', 'function': 'local'}[ctx]
+				kind = {'module': 'module', 'class': 'classvar', 'enum': 'enum-member', 'function': 'local'}[ctx]
 				if isinstance(child, ast.Assign):
 					for t in child.targets:
 						targets(t, kind)
@@ -292,7 +293,7 @@ def relation_of(fresh: str, others: set[str]) -> str:
 	return 'plain'
 
 
-def fresh_candidates(rng: random.Random, original: str, identifiers: list[str]) -> list[str]:
+def fresh_candidates(rng: random.Random, original: str, identifiers: list[str], same_kind: list[str] | None = None, related_only: bool = False) -> list[str]:
 	"""Adversarial candidates for the new spelling of `original` (before the reserved / collision filter)."""
 	us = Reserved.underscore_class(original)
 	lead = '_' * us if us < 3 else ''
@@ -320,23 +321,54 @@ def fresh_candidates(rng: random.Random, original: str, identifiers: list[str]) 
 		core + '_',
 		'x' + core,
 	]
+	# names built from OTHER identifiers of the same kind (another class / enum member / method / ...): `Box` + `Item`, `DARK_` + `RED`
+	peers = [i.lstrip('_') for i in (same_kind or []) if i != original and i.lstrip('_')]
+	related: list[str] = []
+	if peers:
+		peer = rng.choice(peers)
+		related = [
+			peer + core,                                                               # a peer as prefix of the old name (Box + Item)
+			peer + '_' + core,
+			core + peer,                                                               # a peer as suffix
+			rng.choice(['DARK_', 'dark_', 'x', 'my_', 'Sub', 'pre']) + peer,              # prefix + a peer
+			peer + rng.choice(['Item', 'Node', '_x', 'X', '2', 's', '_']),               # a peer + suffix
+		]
+	if related_only and related:
+		pool = related
+	else:
+		pool = pool + related
 	return [lead + c.lstrip('_') if us > 0 else c.lstrip('_') or 'x' for c in pool]
 
 
-def make_renaming(rng: random.Random, domain: dict[str, str], all_identifiers: set[str], reserved: Reserved, how_many: int | None = None) -> dict[str, str]:
+PEER_KINDS = {'class': ('class', 'nested-class'), 'nested-class': ('class', 'nested-class'), 'method': ('method', 'class', 'nested-class'),
+	'classvar': ('classvar', 'field'), 'field': ('classvar', 'field'), 'local': ('local', 'param'), 'param': ('local', 'param')}
+
+
+def make_renaming(rng: random.Random, domain: dict[str, str], all_identifiers: set[str], reserved: Reserved, how_many: int | None = None,
+		related: bool = False) -> dict[str, str]:
 	"""An injective renaming of (a subset of) the domain into fresh names: not reserved, same underscore class, different
-	from every identifier that occurs in the program (renamed or not) and from each other."""
+	from every identifier that occurs in the program (renamed or not) and from each other. `related`: every new name is built
+	from another identifier of the same kind (prefix + existing, existing + suffix), preferring classes / enum members."""
 	names = sorted(domain)
 	if not names:
 		return {}
 	k = how_many if how_many is not None else rng.choice([1, 1, 2, 3, len(names), len(names), max(1, len(names) // 2)])
-	chosen = rng.sample(names, min(k, len(names)))
+	if related:
+		structural = [n for n in names if domain[n] in ('nested-class', 'enum-member', 'class', 'method')]
+		pick_from = structural if structural and rng.random() < 0.8 else names
+		chosen = rng.sample(pick_from, min(k, len(pick_from)))
+	else:
+		chosen = rng.sample(names, min(k, len(names)))
+	by_kind: dict[str, list[str]] = {}
+	for n, kd in domain.items():
+		by_kind.setdefault(kd, []).append(n)
 	taken = set(all_identifiers)
 	mapping: dict[str, str] = {}
 	idents = sorted(all_identifiers)
 	for n in chosen:
 		for _ in range(40):
-			cand = rng.choice(fresh_candidates(rng, n, idents))
+			peers = sorted({p for kd in PEER_KINDS.get(domain[n], (domain[n],)) for p in by_kind.get(kd, [])})
+			cand = rng.choice(fresh_candidates(rng, n, idents, peers, related_only=related))
 			if cand not in taken and reserved.fresh_ok(cand, n):
 				mapping[n] = cand
 				taken.add(cand)
@@ -519,6 +551,8 @@ class NestGen:
 				cands.append(lambda: f"{self.expr('int', env, depth + 1, me)} {r.choice(['<', '>', '==', '!=', '<=', '>='])} {self.expr('int', env, depth + 1, me)}")
 				cands.append(lambda: f"not {self.expr('bool', env, depth + 2, me)}")
 			if ty == 'int':
+				for en, members in self.enums:
+					cands += [lambda en=en, members=members: f'{en}.{r.choice(members)}.value'] * 2   # folded into the member's literal
 				lists = [n for n, t in env if t == 'list[int]']
 				if lists:
 					cands.append(lambda: f'len({r.choice(lists)})')
@@ -597,7 +631,8 @@ class NestGen:
 		for _ in range(r.randint(1, 2 + self.size)):
 			k = r.random()
 			if k < 0.3:
-				ty = r.choice(TYPES + ['list[int]'] + [c.qual for c in self.classes][:2])
+				inners = [c.inner.qual for c in self.classes if c.inner is not None]
+				ty = r.choice(TYPES + ['list[int]'] + [c.qual for c in self.classes][:2] + inners * 2)
 				# reuse a name of the function's pool when it is not visible here (sibling scopes), else a new one
 				free = [n for n in local_pool if all(n != e for e, _ in env)]
 				if free and r.random() < 0.5:
@@ -827,12 +862,12 @@ class NestGen:
 	def program(self) -> str:
 		r = self.rng
 		lines = ['from typing import ClassVar', 'from enum import Enum', 'from collections.abc import Callable', '']
-		if r.random() < 0.4:
+		if r.random() < 0.65:
 			en = self.names.cls()
-			members = [self.names.cls() for _ in range(r.randint(2, 3))]
+			members = [self.names.cls() for _ in range(r.randint(2, 4))]
 			self.enums.append((en, members))
 			lines.append(f'class {en}(Enum):')
-			lines += [f'\t{m} = {i}' for i, m in enumerate(members)]
+			lines += [f'\t{m} = {i + 1}' for i, m in enumerate(members)]
 			lines.append('')
 			self.count('decl:enum')
 		# a procedure first, so that constructors and bodies have something to call
